@@ -200,6 +200,7 @@ theorem bit_vartime_eq (a : List (BitVec 64)) (idx : BitVec 32) :
       if (idx / 64#32).toNat ≥ a.length then false
       else (((a.getD (idx / 64#32).toNat 0#64) >>> ((idx % 64#32).toNat % 64)) &&& 1#64) == 1#64 := by
   simp only [CmpMore.Bits.bit_vartime, decide_eq_true_eq]
+  <;> (by_cases hge : (idx / 64#32).toNat ≥ a.length <;> simp [hge, Nat.not_lt.mpr, Nat.lt_of_not_le])
 
 /-! ## `bits_vartime` (the search loop `while i > 0 && limbs[i].0 == 0 { i -= 1; }`) -/
 
